@@ -129,8 +129,8 @@ ValidStruct(S, K) ==
            ELSE own = {}
 
 \* --- hand-written instances (evaluated at start-up) -------------------------------------------------------------
-\* a 4x4 pattern that needs 4 solves in either single direction and 3 with substitution; the third step uses the
-\* cell corrected by the first one, so the order is part of the coloring
+\* a 4x4 pattern with the coloring the substitution method of the real code returns for it (3 solves; the fwd
+\* coloring needs 4); the third step uses the cell corrected by the first one, so the order is part of the coloring
 ExS == [nr |-> 4, nc |-> 4,
         P |-> {<<1,1>>, <<1,3>>, <<1,4>>, <<2,1>>, <<2,2>>, <<3,1>>, <<4,2>>, <<4,3>>, <<4,4>>}]
 ExK(subs) == [fg |-> <<{1,3}, {2,4}>>, fnz |-> <<{2,3}, {2}, {1}, {1}>>,
@@ -162,16 +162,19 @@ NoK == [fg |-> <<>>, fnz |-> [c \in 1..SCC |-> {}], rg |-> <<>>, rnz |-> [r \in 
 Init == /\ stage = 0 /\ verdict = <<>>
         /\ \E P \in SUBSET ((1..SCR) \X (1..SCC)) : scen = [S |-> SCShape(P), K |-> NoK, mode |-> "auto"]
 
-\* one step chooses the coloring (at most SCLen colors in total), a second one only classifies it so that the
-\* action coverage shows how many candidates were valid and how many were not
+\* one step chooses the coloring (at most SCLen colors in total; the nz list of a column or row that is in no color
+\* is never read, so it is left empty), a second one only classifies it so that the action coverage shows how many
+\* candidates were valid and how many were not
 Pick ==
     /\ stage = 0 /\ stage' = 1
     /\ \E fg \in GroupSeqs(1..SCC), rg \in GroupSeqs(1..SCR) :
          /\ Len(fg) + Len(rg) <= SCLen
          /\ \E fnz \in [1..SCC -> SUBSET (1..SCR)], rnz \in [1..SCR -> SUBSET (1..SCC)] :
-               LET K == [fg |-> fg, fnz |-> fnz, rg |-> rg, rnz |-> rnz, subs |-> <<>>]
-               IN /\ scen' = [scen EXCEPT !.K = K]
-                  /\ verdict' = Verdict(scen.S, K, "auto")
+               /\ \A c \in (1..SCC) \ UNION Range(fg) : fnz[c] = {}
+               /\ \A r \in (1..SCR) \ UNION Range(rg) : rnz[r] = {}
+               /\ LET K == [fg |-> fg, fnz |-> fnz, rg |-> rg, rnz |-> rnz, subs |-> <<>>]
+                  IN /\ scen' = [scen EXCEPT !.K = K]
+                     /\ verdict' = Verdict(scen.S, K, "auto")
 SeenValid == stage = 1 /\ verdict.valid /\ stage' = 2 /\ UNCHANGED <<scen, verdict>>
 SeenInvalid == stage = 1 /\ ~verdict.valid /\ stage' = 2 /\ UNCHANGED <<scen, verdict>>
 Next == Pick \/ SeenValid \/ SeenInvalid
